@@ -1,12 +1,19 @@
 """Shims that route the primitives of datashard.file_lock and datashard.lock_provider through the
 cooperative scheduler (harness/lib/coop.py).  The library is patched from outside only.
 
-Clock convention (see coop.Clock): the virtual clock counts integer milliseconds.  time.monotonic() and
-time.time() return that count as a float (exact for integers), so the timeouts handed to the library
-are expressed in the same unit (timeout=50.0 means 50 virtual ms).  The library is unit-agnostic except
-for the arguments it passes to time.sleep (seconds): sleep(d) sleeps round(d*1000) virtual ms.
-datetime.now() is the virtual clock mapped onto a fixed epoch, so `(now - LastModified).total_seconds()`
-is in real seconds and is compared with lease_seconds as in production.
+Clock convention (see coop.Clock): the virtual clock counts integer milliseconds.
+
+  datashard.file_lock (monotonic clock only): time.monotonic() returns that count as a float (exact for
+  integers), so the timeouts handed to FileLock are expressed in the same unit (timeout=50.0 means 50
+  virtual ms); sleep(d) sleeps round(d*1000) virtual ms.
+
+  datashard.lock_provider (wall clock): ONE realistic time line.  Virtual instant t ms is the real instant
+  EPOCH + t ms, and every clock the library can read agrees on it the way an operating system's clocks do:
+  time.time() = EPOCH_S + t/1000 (epoch seconds), datetime.now(tz) / utcnow() / today() are that instant
+  in the requested zone (naive forms: in the PROCESS zone -- os.environ["TZ"] + time.tzset(), set by the
+  run's "env" events), and everything else of `time` (mktime, localtime, gmtime, timezone ...) is the real
+  module acting on those values.  So an age computed by ANY route (datetime subtraction, epoch seconds,
+  struct_time round trips) is judged against the same instants.  Timeouts are handed over in seconds.
 """
 from __future__ import annotations
 
@@ -20,11 +27,49 @@ from typing import Any, Dict, Iterator, List, Optional
 
 from .coop import Scheduler
 
-EPOCH = _dt.datetime(2026, 1, 1, tzinfo=_dt.timezone.utc)
+_RealDateTime = _dt.datetime
+EPOCH = _RealDateTime(2026, 1, 1, tzinfo=_dt.timezone.utc)
+EPOCH_S = 1767225600            # EPOCH as epoch seconds
+assert int(EPOCH.timestamp()) == EPOCH_S
 
 
 def vdatetime(ms: int) -> _dt.datetime:
     return EPOCH + _dt.timedelta(milliseconds=int(ms))
+
+
+def tz_string(zone_s: int) -> str:
+    """POSIX TZ value of a fixed zone `zone_s` seconds EAST of UTC (POSIX writes the offset west-positive);
+    needs no tzdata."""
+    zone_s = int(zone_s)
+    if zone_s == 0:
+        return "UTC0"
+    a = abs(zone_s)
+    return "VZN%s%d:%02d:%02d" % ("-" if zone_s > 0 else "+", a // 3600, a % 3600 // 60, a % 60)
+
+
+def set_process_zone(zone_s: Optional[int]) -> None:
+    """os.environ['TZ'] + time.tzset(); None restores 'no TZ variable'."""
+    if zone_s is None:
+        _real_os.environ.pop("TZ", None)
+    else:
+        _real_os.environ["TZ"] = tz_string(zone_s)
+    _real_time.tzset()
+
+
+def render_last_modified(ms: int, rep: Optional[int], flavour: str = "std") -> _dt.datetime:
+    """The datetime object a client library hands back for the instant EPOCH + ms.
+    rep = utcoffset in seconds of an aware rendering (0 = UTC, what boto3 yields for S3's GMT dates), or None =
+    naive with UTC fields (a date header without zone).  flavour: which tzinfo class carries the offset --
+    "std" datetime.timezone, "dateutil" dateutil.tz.tzutc / tzoffset (what botocore really uses)."""
+    d = vdatetime(ms)
+    if rep is None:
+        return d.replace(tzinfo=None)
+    if flavour == "dateutil":
+        from dateutil import tz as _tz
+        zone = _tz.tzutc() if rep == 0 else _tz.tzoffset(None, int(rep))
+    else:
+        zone = _dt.timezone.utc if rep == 0 else _dt.timezone(_dt.timedelta(seconds=int(rep)))
+    return d.astimezone(zone)
 
 
 class _Proxy:
@@ -69,14 +114,25 @@ class FdTable:
         return [fd for fd, a in self.owner.items() if a == aid]
 
 
-def time_shim(sched: Scheduler, clock_fn: str = "time") -> Any:
-    def now() -> float:
+def time_shim(sched: Scheduler, epoch_s: Optional[int] = None) -> Any:
+    """epoch_s None: the unit-free monotonic convention (file_lock).  epoch_s given: time.time() is epoch
+    seconds on the realistic time line, time.monotonic() seconds since the run began."""
+    def read() -> int:
         if sched.current() is None:
-            return float(sched.clock.now)
+            return sched.clock.now
         sched.yield_point("clock")
         t = sched.clock.now
         sched.log("clock", t)
-        return float(t)
+        return t
+
+    def now() -> float:
+        return float(read())
+
+    def wall() -> float:
+        return epoch_s + read() / 1000.0
+
+    def mono() -> float:
+        return read() / 1000.0
 
     def sleep(d: float) -> None:
         if sched.current() is None:
@@ -86,6 +142,8 @@ def time_shim(sched: Scheduler, clock_fn: str = "time") -> Any:
         sched.clock.advance_to(until)
         sched.log("sleep", sched.clock.now)
 
+    if epoch_s is not None:
+        return _Proxy(_real_time, monotonic=mono, time=wall, sleep=sleep)
     return _Proxy(_real_time, monotonic=now, time=now, sleep=sleep)
 
 
@@ -159,20 +217,35 @@ class _Uniform:
 
 @contextlib.contextmanager
 def patched_lock_provider(sched: Scheduler) -> Iterator[_Uniform]:
-    """time.time / time.sleep / random.uniform of datashard.lock_provider and datetime.datetime.now
-    (imported inside _try_takeover_expired) go through the scheduler; the heartbeat thread is replaced by
+    """time.time / time.monotonic / time.sleep / random.uniform of datashard.lock_provider and the clock
+    reads of datetime.datetime (now / utcnow / today; the class is imported inside _try_takeover_expired) go
+    through the scheduler, all on one time line (module docstring); the heartbeat thread is replaced by
     explicit renew events (S3LockProviderBase._start_heartbeat / _stop_heartbeat_thread only flip a flag)."""
     import datashard.lock_provider as lp
 
     uni = _Uniform(sched)
 
-    class VDateTime(_dt.datetime):
+    def read_clock() -> _dt.datetime:
+        if sched.current() is not None:
+            sched.yield_point("clock")
+            sched.log("clock", sched.clock.now)
+        return vdatetime(sched.clock.now)
+
+    class VDateTime(_RealDateTime):
         @classmethod
         def now(cls, tz: Any = None) -> Any:   # type: ignore[override]
-            if sched.current() is not None:
-                sched.yield_point("clock")
-                sched.log("clock", sched.clock.now)
-            return vdatetime(sched.clock.now)
+            d = read_clock()
+            if tz is None:                      # naive, fields in the process's local zone
+                return d.astimezone().replace(tzinfo=None)
+            return d.astimezone(tz)
+
+        @classmethod
+        def utcnow(cls) -> Any:                 # type: ignore[override]
+            return read_clock().replace(tzinfo=None)
+
+        @classmethod
+        def today(cls) -> Any:                  # type: ignore[override]
+            return cls.now()
 
     def start_hb(self: Any) -> None:
         self._verif_hb = True
@@ -182,7 +255,7 @@ def patched_lock_provider(sched: Scheduler) -> Iterator[_Uniform]:
 
     saved = (lp.time, lp.random, _dt.datetime, lp.S3LockProviderBase._start_heartbeat,
              lp.S3LockProviderBase._stop_heartbeat_thread)
-    lp.time = time_shim(sched)
+    lp.time = time_shim(sched, EPOCH_S)
     lp.random = _Proxy(saved[1], uniform=uni.uniform)
     _dt.datetime = VDateTime  # type: ignore[misc]
     lp.S3LockProviderBase._start_heartbeat = start_hb      # type: ignore[assignment]
